@@ -300,4 +300,253 @@ theorem law_aware_other (dt : DateTime) (hv : dt.valid = true) (hs : dt.tz.isSom
     · exact (strptime_fmtTFz _).trans (pIso_F3 dt hv (by simpa using hu) o htz true)
   · exact strptime_other _ _ h.2.2.2.2.2.1 h.2.2.2.2.2.2.1 h.2.2.2.2.2.2.2.1 h.2.2.2.2.2.2.2.2.1 h.2.2.2.2.2.2.2.2.2
 
+
+theorem digitsN6_short (n : Nat) (hn : n < 10 ^ 3) : digitsN 6 (pad 3 n) = none := by
+  have := pad_length (by decide : 0 < 3) hn
+  simp [digitsN, this]
+
+theorem digitsN6_sign (n : Nat) (hn : n < 10 ^ 3) (c : Char) (hc : c.isDigit = false) (r : Str) :
+    digitsN 6 (pad 3 n ++ c :: r) = none := by
+  have hl := pad_length (by decide : 0 < 3) hn
+  have : ((pad 3 n ++ c :: r).take 6).all Char.isDigit = false := by
+    rw [List.take_append, hl]
+    simp [List.take_of_length_le, hl, hc]
+  simp [digitsN, this]
+
+theorem tzFix (o : Int) (h : tzWholeOrBig (some o) = true) : (if o.natAbs < 1000000 then (0 : Int) else o) = o := by
+  simp only [tzWholeOrBig, Bool.or_eq_true, beq_iff_eq, decide_eq_true_eq] at h
+  rcases h with h | h
+  · subst h; simp
+  · have : ¬ o.natAbs < 1000000 := by omega
+    simp [this]
+
+theorem sign_not_digit (o : Int) : (if o < 0 then '-' else '+').isDigit = false := by
+  split <;> decide
+
+theorem law_time_iso (t : TimeV) (hv : t.valid = true) (hz : tzWholeOrBig t.tz = true) (hms : t.clock.us % 1000 = 0) :
+    timeFromIso (fromTime Cfg.fixed t) = some t := by
+  obtain ⟨c, tz⟩ := t
+  obtain ⟨h, mi, s, us⟩ := c
+  simp only [TimeV.valid, Bool.and_eq_true] at hv
+  have hcv := hv.1
+  have husb : us < 1000000 := by
+    have := hv.1; simp only [Clock.valid, Bool.and_eq_true, decide_eq_true_eq] at this; omega
+  simp only at hms hz
+  unfold fromTime
+  by_cases hu : (us != 0) = true
+  · have hmsb : us / 1000 < 10 ^ 3 := by omega
+    have hback : us / 1000 * 1000 = us := by omega
+    simp only [hu, ↓reduceIte, Cfg.fixed, isoClockMs, List.append_assoc, List.cons_append]
+    cases tz with
+    | none =>
+      simp only [timeFromIso, pHMS_iso ⟨h, mi, s, us⟩ hcv, isoTz, List.append_nil, digitsN6_short _ hmsb,
+        digitsN_pad_nil (by decide) hmsb, Option.bind_eq_bind, Option.bind_some, hback]
+    | some o =>
+      have ho : o.natAbs < 86400000000 := by simpa [tzValid] using hv.2
+      obtain ⟨r, hr⟩ := isoOffset_cons o
+      have h6 : digitsN 6 (pad 3 (us / 1000) ++ isoOffset o) = none := by
+        rw [hr]; exact digitsN6_sign _ hmsb _ (sign_not_digit o) r
+      have hp := pOffset_iso o ho
+      simp only [timeFromIso, pHMS_iso ⟨h, mi, s, us⟩ hcv, isoTz, h6, digitsN_pad (by decide) hmsb,
+        Option.bind_eq_bind, Option.bind_some, hback]
+      generalize isoOffset o = w at hr hp
+      subst hr
+      by_cases hneg : o < 0 <;> simp only [hneg, ↓reduceIte] at hp ⊢ <;> simp [hp, tzFix o hz]
+  · have hu0 : us = 0 := by simpa using hu
+    subst hu0
+    simp only [hu, Bool.false_eq_true, ↓reduceIte, isoTime, isoClock, List.append_assoc, List.cons_append, List.nil_append]
+    cases tz with
+    | none =>
+      simp only [timeFromIso, pHMS_iso ⟨h, mi, s, 0⟩ hcv, isoTz, Option.bind_eq_bind, Option.bind_some]
+    | some o =>
+      have ho : o.natAbs < 86400000000 := by simpa [tzValid] using hv.2
+      obtain ⟨r, hr⟩ := isoOffset_cons o
+      have hp := pOffset_iso o ho
+      simp only [timeFromIso, pHMS_iso ⟨h, mi, s, 0⟩ hcv, isoTz, Option.bind_eq_bind, Option.bind_some]
+      generalize isoOffset o = w at hr hp
+      subst hr
+      by_cases hneg : o < 0 <;> simp only [hneg, ↓reduceIte] at hp ⊢ <;> simp [hp, tzFix o hz]
+
+
+/-! ### durations -/
+
+theorem tw_digits (ds : Str) (c : Char) (r : Str) (hds : ds.all Char.isDigit = true) (hc : c.isDigit = false) :
+    (ds ++ c :: r).takeWhile Char.isDigit = ds ∧ (ds ++ c :: r).dropWhile Char.isDigit = c :: r := by
+  induction ds with
+  | nil => simp [List.takeWhile, List.dropWhile, hc]
+  | cons d ds ih =>
+    simp only [List.all_cons, Bool.and_eq_true] at hds
+    simp [List.takeWhile, List.dropWhile, hds.1, ih hds.2]
+
+theorem tw_digits_nil (ds : Str) (hds : ds.all Char.isDigit = true) :
+    ds.takeWhile Char.isDigit = ds ∧ ds.dropWhile Char.isDigit = [] := by
+  induction ds with
+  | nil => simp
+  | cons d ds ih =>
+    simp only [List.all_cons, Bool.and_eq_true] at hds
+    simp [List.takeWhile, List.dropWhile, hds.1, ih hds.2]
+
+theorem all_digit_pad (w n : Nat) : (pad w n).all Char.isDigit = true := by
+  simp only [List.all_eq_true]; intro c h; exact pad_isDigit h
+
+theorem all_digit_natStr (n : Nat) : (natStr n).all Char.isDigit = true := by
+  simp only [List.all_eq_true]; intro c h; exact natStr_isDigit h
+
+/-- `(?:(?P<g>\d+(.\d+)?)U)?` on `digits U rest` where the greedy `(.\d+)U` alternative cannot match -/
+theorem pNumUnit_plain (u : Char) (ds rest : Str) (hds : ds.all Char.isDigit = true) (hne : ds ≠ [])
+    (hu : u.isDigit = false)
+    (hrest : rest.takeWhile Char.isDigit = [] ∨ ∃ v tl, rest.dropWhile Char.isDigit = v :: tl ∧ v ≠ u) :
+    pNumUnit u (ds ++ u :: rest) = (some ds, rest) := by
+  obtain ⟨h1, h2⟩ := tw_digits ds u rest hds hu
+  have hemp : ds.isEmpty = false := by cases ds <;> simp_all
+  unfold pNumUnit
+  simp only [h1, h2, hemp, Bool.false_eq_true, ↓reduceIte]
+  rcases hrest with h | ⟨v, tl, hd, hv⟩
+  · simp [h]
+  · simp only [hd]
+    by_cases hf : (rest.takeWhile Char.isDigit).isEmpty = true
+    · simp [hf]
+    · simp [hf, hv]
+
+/-- … and on `digits . digits S` -/
+theorem pNumUnit_frac (ds fs : Str) (hds : ds.all Char.isDigit = true) (hne : ds ≠ [])
+    (hfs : fs.all Char.isDigit = true) (hfne : fs ≠ []) :
+    pNumUnit 'S' (ds ++ '.' :: (fs ++ ['S'])) = (some (ds ++ '.' :: fs), []) := by
+  obtain ⟨h1, h2⟩ := tw_digits ds '.' (fs ++ ['S']) hds (by decide)
+  obtain ⟨h3, h4⟩ := tw_digits fs 'S' [] hfs (by decide)
+  have hemp : ds.isEmpty = false := by cases ds <;> simp_all
+  have hfemp : fs.isEmpty = false := by cases fs <;> simp_all
+  unfold pNumUnit
+  simp [h1, h2, h3, h4, hemp, hfemp]
+
+theorem groupMicros_digits (unit : Nat) (ds : Str) (hds : ds.all Char.isDigit = true) (hne : ds ≠ []) :
+    groupMicros unit (some ds) = some (Nat.ofDigitChars 10 ds 0 * unit) := by
+  obtain ⟨h1, h2⟩ := tw_digits_nil ds hds
+  have hemp : ds.isEmpty = false := by cases ds <;> simp_all
+  simp [groupMicros, h1, h2, hemp]
+
+theorem groupMicros_frac (ds fs : Str) (hds : ds.all Char.isDigit = true) (hne : ds ≠ [])
+    (hfs : fs.all Char.isDigit = true) (hlen : fs.length = 6) :
+    groupMicros 1000000 (some (ds ++ '.' :: fs)) = some (Nat.ofDigitChars 10 ds 0 * 1000000 + Nat.ofDigitChars 10 fs 0) := by
+  obtain ⟨h1, h2⟩ := tw_digits ds '.' fs hds (by decide)
+  have hemp : ds.isEmpty = false := by cases ds <;> simp_all
+  have hfemp : fs.isEmpty = false := by cases fs <;> simp_all
+  simp [groupMicros, h1, h2, hemp, hfs, hfemp, hlen]
+
+theorem law_dur_float (us : Int) : floatParses (durationIso us) = false := by
+  unfold durationIso
+  simp only []
+  by_cases h : us < 0 <;> simp [h, floatParses, List.takeWhile]
+
+theorem law_dur_re0 (us : Int) : reDuration0 (durationIso us) = false := by
+  have hP : 'P' ∈ durationIso us := by
+    unfold durationIso; simp
+  have : (durationIso us).all (fun c => c.isDigit || "- :.,days".toList.contains c) = false := by
+    rw [List.all_eq_false]
+    exact ⟨'P', hP, by decide⟩
+  unfold reDuration0
+  rw [this]; simp
+
+
+/-- the unsigned part `P<days>DT<hh>H<mm>M<ss>[.ffffff]S` -/
+def durBody (a : Nat) : Str :=
+  'P' :: (natStr (a / 86400000000) ++ ('D' :: 'T' :: (pad 2 (a % 86400000000 / 1000000 / 60 / 60) ++ ('H' ::
+    (pad 2 (a % 86400000000 / 1000000 / 60 % 60) ++ ('M' :: (pad 2 (a % 86400000000 / 1000000 % 60) ++
+      ((if a % 86400000000 % 1000000 != 0 then '.' :: pad 6 (a % 86400000000 % 1000000) else []) ++ ['S']))))))))
+
+theorem durationIso_eq (us : Int) : durationIso us = (if us < 0 then ['-'] else []) ++ durBody us.natAbs := by
+  simp [durationIso, durBody, List.append_assoc]
+
+theorem durBody_match (a : Nat) (sign : Str) :
+    reDurBody sign (durBody a) =
+    some ⟨sign, some (natStr (a / 86400000000)), some (pad 2 (a % 86400000000 / 1000000 / 60 / 60)),
+      some (pad 2 (a % 86400000000 / 1000000 / 60 % 60)),
+      some (pad 2 (a % 86400000000 / 1000000 % 60) ++
+        (if a % 86400000000 % 1000000 != 0 then '.' :: pad 6 (a % 86400000000 % 1000000) else []))⟩ := by
+  unfold durBody reDurBody
+  simp only []
+  have hD := pNumUnit_plain 'D' (natStr (a / 86400000000))
+    ('T' :: (pad 2 (a % 86400000000 / 1000000 / 60 / 60) ++ ('H' ::
+      (pad 2 (a % 86400000000 / 1000000 / 60 % 60) ++ ('M' :: (pad 2 (a % 86400000000 / 1000000 % 60) ++
+        ((if a % 86400000000 % 1000000 != 0 then '.' :: pad 6 (a % 86400000000 % 1000000) else []) ++ ['S'])))))))
+    (all_digit_natStr _) (natStr_ne_nil _) (by decide) (Or.inl (by simp [List.takeWhile]))
+  rw [hD]
+  simp only []
+  have hH := pNumUnit_plain 'H' (pad 2 (a % 86400000000 / 1000000 / 60 / 60))
+    (pad 2 (a % 86400000000 / 1000000 / 60 % 60) ++ ('M' :: (pad 2 (a % 86400000000 / 1000000 % 60) ++
+        ((if a % 86400000000 % 1000000 != 0 then '.' :: pad 6 (a % 86400000000 % 1000000) else []) ++ ['S']))))
+    (all_digit_pad _ _) (pad_ne_nil _ _) (by decide)
+    (Or.inr ⟨'M', _, (tw_digits _ 'M' _ (all_digit_pad _ _) (by decide)).2, by decide⟩)
+  rw [hH]
+  simp only []
+  by_cases hm : (a % 86400000000 % 1000000 != 0) = true
+  · simp only [hm, ↓reduceIte, List.cons_append]
+    have hM := pNumUnit_plain 'M' (pad 2 (a % 86400000000 / 1000000 / 60 % 60))
+      (pad 2 (a % 86400000000 / 1000000 % 60) ++ '.' :: (pad 6 (a % 86400000000 % 1000000) ++ ['S']))
+      (all_digit_pad _ _) (pad_ne_nil _ _) (by decide)
+      (Or.inr ⟨'.', _, (tw_digits _ '.' _ (all_digit_pad _ _) (by decide)).2, by decide⟩)
+    rw [hM]
+    simp only []
+    rw [pNumUnit_frac _ _ (all_digit_pad _ _) (pad_ne_nil _ _) (all_digit_pad _ _) (pad_ne_nil _ _)]
+    simp
+  · simp only [hm, Bool.false_eq_true, ↓reduceIte, List.nil_append, List.append_nil]
+    have hM := pNumUnit_plain 'M' (pad 2 (a % 86400000000 / 1000000 / 60 % 60))
+      (pad 2 (a % 86400000000 / 1000000 % 60) ++ ['S'])
+      (all_digit_pad _ _) (pad_ne_nil _ _) (by decide)
+      (Or.inr ⟨'S', _, (tw_digits _ 'S' _ (all_digit_pad _ _) (by decide)).2, by decide⟩)
+    rw [hM]
+    simp only []
+    rw [pNumUnit_plain 'S' _ [] (all_digit_pad _ _) (pad_ne_nil _ _) (by decide) (Or.inl rfl)]
+    simp
+
+
+
+theorem tdOfGroups_eq (sign d h m s : Str) (D H M S : Nat)
+    (hd : groupMicros 86400000000 (some d) = some D) (hh : groupMicros 3600000000 (some h) = some H)
+    (hm : groupMicros 60000000 (some m) = some M) (hs : groupMicros 1000000 (some s) = some S)
+    (hlt : D + H + M + S < maxDelta) :
+    tdOfGroups ⟨sign, some d, some h, some m, some s⟩ = some ((D + H + M + S : Nat) : Int) := by
+  simp only [tdOfGroups, hd, hh, hm, hs, Option.bind_eq_bind, Option.bind_some, hlt, ↓reduceIte]
+
+theorem law_dur_iso (us : Int) (h : us.natAbs < maxDelta) :
+    ∃ g, reDurationIso (durationIso us) = some g ∧ (g.sign == ['-']) = decide (us < 0)
+      ∧ tdOfGroups g = some (us.natAbs : Int) := by
+  have hre : reDurationIso (durationIso us) = reDurBody (if us < 0 then ['-'] else []) (durBody us.natAbs) := by
+    rw [durationIso_eq]
+    by_cases hn : us < 0
+    · simp [hn, reDurationIso]
+    · simp only [hn, ↓reduceIte, List.nil_append]
+      unfold durBody
+      simp [reDurationIso]
+  refine ⟨_, hre.trans (durBody_match _ _), ?_, ?_⟩
+  · by_cases hn : us < 0 <;> simp [hn]
+  · generalize us.natAbs = a at h
+    have hU : a % 86400000000 % 1000000 < 10 ^ 6 := by omega
+    have hd := groupMicros_digits 86400000000 _ (all_digit_natStr (a / 86400000000)) (natStr_ne_nil _)
+    have hh := groupMicros_digits 3600000000 _ (all_digit_pad 2 (a % 86400000000 / 1000000 / 60 / 60)) (pad_ne_nil _ _)
+    have hm := groupMicros_digits 60000000 _ (all_digit_pad 2 (a % 86400000000 / 1000000 / 60 % 60)) (pad_ne_nil _ _)
+    rw [ofDigits_natStr] at hd
+    rw [ofDigits_pad] at hh hm
+    by_cases hmz : (a % 86400000000 % 1000000 != 0) = true
+    · have hs := groupMicros_frac _ _ (all_digit_pad 2 (a % 86400000000 / 1000000 % 60)) (pad_ne_nil _ _)
+        (all_digit_pad 6 (a % 86400000000 % 1000000)) (pad_length (by decide) hU)
+      rw [ofDigits_pad, ofDigits_pad] at hs
+      have e : a / 86400000000 * 86400000000 + a % 86400000000 / 1000000 / 60 / 60 * 3600000000
+          + a % 86400000000 / 1000000 / 60 % 60 * 60000000
+          + (a % 86400000000 / 1000000 % 60 * 1000000 + a % 86400000000 % 1000000) = a := by omega
+      have := tdOfGroups_eq (if us < 0 then ['-'] else []) _ _ _ _ _ _ _ _ hd hh hm hs (by rw [e]; exact h)
+      rw [e] at this
+      simp only [hmz, ↓reduceIte]
+      exact this
+    · have hs := groupMicros_digits 1000000 _ (all_digit_pad 2 (a % 86400000000 / 1000000 % 60)) (pad_ne_nil _ _)
+      rw [ofDigits_pad] at hs
+      have hz : a % 86400000000 % 1000000 = 0 := by simpa using hmz
+      have e : a / 86400000000 * 86400000000 + a % 86400000000 / 1000000 / 60 / 60 * 3600000000
+          + a % 86400000000 / 1000000 / 60 % 60 * 60000000
+          + a % 86400000000 / 1000000 % 60 * 1000000 = a := by omega
+      have := tdOfGroups_eq (if us < 0 then ['-'] else []) _ _ _ _ _ _ _ _ hd hh hm hs (by rw [e]; exact h)
+      rw [e] at this
+      simp only [hmz, Bool.false_eq_true, ↓reduceIte, List.append_nil]
+      exact this
+
 end Utv.C14.P0
